@@ -158,3 +158,18 @@ func SolveAll(ps []*Prepared, timeout time.Duration, thorough bool, workers int)
 	wg.Wait()
 	return outs
 }
+
+// entailed asks the solvers whether pc (with the global assumptions) entails goal. Used while
+// generating obligations to decide side conditions of contract clauses ("L if cond"); "no" and
+// "don't know" are the same answer.
+func (x *Exec) entailed(pc, goal *smt.Term) bool {
+	if goal.IsTrue() || pc.IsFalse() {
+		return true
+	}
+	if goal.IsFalse() {
+		return false
+	}
+	o := &Obligation{Name: "side-condition", Hyps: append([]*smt.Term{}, x.assumes...), PC: pc, Goal: goal, Expect: "unsat"}
+	best, _ := smt.Race(x.Script(o, false), 2*time.Second, smt.AllSolvers)
+	return best.Status == "unsat"
+}
